@@ -627,24 +627,33 @@ func c17PexExec(in c17Input, rec *c17Rec) {
 	filePath := env.book.FilePath()
 	if done {
 		// one iteration of the background routines, under recover
-		ok, bpan, bpv := c17Timed(4*time.Second, func() {
-			if st.seed {
-				env.r.crawlPeers(env.book.GetSelection())
+		bgStep := func(name string, d time.Duration, f func()) {
+			ok, bpan, bpv := c17Timed(d, f)
+			if bpan {
+				env.bg.mtx.Lock()
+				env.bg.panics = append(env.bg.panics, name+": "+bpv)
+				env.bg.mtx.Unlock()
+			}
+			if !ok {
+				rec.Note += " " + name + " did not finish in " + d.String()
+			}
+		}
+		if st.seed {
+			// the crawler dials one address after the other, each bounded by the transport's 1 s
+			// timeout (unroutable IPv6 addresses take all of it here): crawl a few of the selection
+			sel := env.book.GetSelection()
+			if len(sel) > 3 {
+				sel = sel[:3]
+			}
+			bgStep("crawlPeers", 6*time.Second, func() {
+				env.r.crawlPeers(sel)
 				env.r.attemptDisconnects()
 				env.r.cleanupCrawlPeerInfos()
-			} else {
-				env.r.ensurePeers()
-			}
-			env.book.saveToFile(filePath)
-		})
-		if bpan {
-			env.bg.mtx.Lock()
-			env.bg.panics = append(env.bg.panics, "routine body: "+bpv)
-			env.bg.mtx.Unlock()
+			})
+		} else {
+			bgStep("ensurePeers", 4*time.Second, func() { env.r.ensurePeers() })
 		}
-		if !ok {
-			rec.Note += " background iteration did not finish in 4 s (dialling)"
-		}
+		bgStep("saveToFile", 4*time.Second, func() { env.book.saveToFile(filePath) })
 		time.Sleep(10 * time.Millisecond) // dial goroutines
 	}
 	rec.Alloc = c17TotalAlloc() - a0
